@@ -88,6 +88,7 @@ type fnv struct {
 	pendingPanics []*State
 	litOfVar      map[types.Object]*ast.FuncLit
 	activeLoops   map[int]*loopCtx
+	pendingRaw    []*Mem
 	paramVals     map[string]Value
 	tids          map[string]types.Type
 	ifaces        map[string]types.Type
@@ -114,7 +115,8 @@ type deferred struct {
 
 // flows is the result of executing a statement.
 type flows struct {
-	next *State
+	next  *State   // single (merged) continuation
+	nexts []*State // the same continuation kept as separate paths (optional; nil means {next})
 	brk  []jump
 	cont []jump
 	ret  []*State
@@ -568,4 +570,15 @@ func (w *writeSet) sortedRegions() []string {
 	}
 	sort.Strings(out)
 	return out
+}
+
+// paths returns the normal continuations as separate states.
+func (f *flows) paths() []*State {
+	if f.nexts != nil {
+		return f.nexts
+	}
+	if f.next != nil {
+		return []*State{f.next}
+	}
+	return nil
 }
